@@ -177,8 +177,25 @@ V: List[Tuple[str, str, List[str], str, str, str, List[str]]] = [
     ("children-after-parent", "break", ["C10"], PC + "_ast.py", "            if recursive:  # Child first\n                if isinstance(member, Scope):\n                    scope = cast(Scope, member)\n                    items.extend(scope.filter(t, recursive=recursive))\n            if isinstance(member, t):\n                items.append((name, member))", "            if isinstance(member, t):\n                items.append((name, member))\n            if recursive:\n                if isinstance(member, Scope):\n                    scope = cast(Scope, member)\n                    items.extend(scope.filter(t, recursive=recursive))", ["F2"]),
     ("unbalanced-brace", "break", ["C10"], PC + "renderer/impls/c/renderer_c.py", '    @override(BlockWrapper)\n    def after(self) -> None:\n        self.push("BpJsonFormatMessage(&descriptor, ctx, data);", indent=4)\n        self.push("}")', '    @override(BlockWrapper)\n    def after(self) -> None:\n        self.push("BpJsonFormatMessage(&descriptor, ctx, data);", indent=4)', ["F1"]),
     ("include-proto-name", "break", ["C10"], PC + "renderer/impls/c/formatter.py", "return '#include \"{0}\"'.format(self.format_out_filename(t, extension=\".h\"))", "return '#include \"{0}_bp.h\"'.format(t.name)", ["F7"]),
-    ("helper-name-collision", "break", ["C10"], PC + "renderer/impls/c/formatter.py", 'prefix = self.bp_processor_name_prefix()\n        return f"{prefix}Array{message_name}_{d.number}"', 'prefix = self.bp_processor_name_prefix()\n        return f"{prefix}Array{message_name}{d.number}"', ["F6"]),
+    ("helper-name-collision", "break", ["C10"], PC + "renderer/impls/c/formatter.py", 'prefix = self.bp_processor_name_prefix()\n        return f"{prefix}Array_{message_name}_{d.number}"', 'prefix = self.bp_processor_name_prefix()\n        return f"{prefix}Array_{message_name}{d.number}"', ["F6"]),
     ("tojson-default-dropped", "break", ["C16"], BP, "            default=json_default,\n", "", ["C8"]),
+
+    # ---------------- variants distilled from the independently seeded changes (see /verif/seeded)
+    ("seed-msg-size-ignores-prefix", "break", ["C08"], PC + "_ast.py", "        if self.nbits() > 65535:\n            raise MessageSizeOverflows.from_token(token=self)", "        nbits = sum(field.type.nbits() for field in self.fields())\n        if nbits > 65535:\n            raise MessageSizeOverflows.from_token(token=self)", ["C1"]),
+    ("seed-dup-import-string", "break", ["C08"], PC + "parser.py", "if os.path.samefile(proto.filepath, filepath):", "if proto.filepath == filepath:", ["C1"]),
+    ("seed-cycle-check-string", "break", ["C09", "C08"], PC + "parser.py", "        for filepath_ in self.filepath_stack:\n            if os.path.samefile(filepath, filepath_):\n                return True\n        return False", "        return filepath in self.filepath_stack", ["C1"]),
+    ("seed-py-aligned-fast-path", "break", ["C01", "C07"], BP, "        process_single_byte(ctx, di, accessor, j, c)\n        ctx.i += c", "        if ctx.is_encode and ctx.i % 8 == 0 and j % 8 == 0:\n            ctx.s[ctx.i >> 3] = accessor.bp_get_byte(di, j)\n        else:\n            process_single_byte(ctx, di, accessor, j, c)\n        ctx.i += c", ["D1"]),
+    ("seed-int-sign-skipped", "break", ["C02"], BP, "        if ctx.is_encode:\n            return\n\n        accessor.bp_process_int(di)", "        if ctx.is_encode or self.nbits % 8 == 0:\n            return\n\n        accessor.bp_process_int(di)", ["D7"]),
+    ("seed-array-default-shared", "break", ["C02"], PC + "renderer/impls/py/formatter.py", '        return f"[{element_default_value} for _ in range({cap})]"', '        if not isinstance(t.element_type, (Message, Array)):\n            return f"[{element_default_value}] * {cap}"\n        return f"[{element_default_value} for _ in range({cap})]"', ["D6"]),
+    ("seed-enum-default-by-number", "break", ["C10"], PC + "renderer/impls/py/formatter.py", 'return f"{self.format_type(t)}.{self.format_enum_field_name(t.fields()[0])}"', 'return f"{self.format_type(t)}(0)"', ["F8"]),
+    ("seed-batch-alias-of-array", "break", ["C03", "C14"], CC, "        (BpIsBaseIntegerType(flag) || BpIsBaseIntegerType(to_flag))", "        (BpIsBaseIntegerType(flag) || to_flag != 0)", ["EC2"]),
+    ("seed-py-relative-skip", "break", ["C05"], BP, "            ito = i + ahead\n            if ito >= ctx.i:\n                ctx.i = ito", "            if ahead > self.nbits:\n                ctx.i += ahead - self.nbits", ["D3"]),
+    ("seed-c-array-static-width", "break", ["C05"], CC, "int nbits_per_element = (ctx->i - i - 16) / descriptor->cap;", "int nbits_per_element = element_nbits;", ["EC3"]),
+    ("seed-opmode-unmasked", "break", ["C07", "C04"], PC + "renderer/impls/c/formatter.py", '        return f"s[{si}] {assign} (((unsigned char *)&({chain}))[{fi}] {shift_s}) & {mask};"', '        byte = f"((unsigned char *)&({chain}))[{fi}]"\n        if r == 0 and shift == 0:\n            return f"s[{si}] = {byte};"\n        return f"s[{si}] {assign} ({byte} {shift_s}) & {mask};"', ["D2"]),
+    ("seed-c-16bit-path-widened", "break", ["C07", "C03", "C14"], CC, "} else if (bits >= 16) {", "} else if (bits > 8) {", ["EC1"]),
+    ("seed-prefix-from-importer", "break", ["C10", "C15"], PC + "renderer/formatter.py", "            bound = d_.bound\n", "            bound = cast_or_raise(Proto, d.scope_stack[0])\n", ["C5"]),
+    ("helper-array-prefix-collision", "break", ["C10"], PC + "renderer/impls/c/formatter.py", 'prefix = self.bp_processor_name_prefix()\n        return f"{prefix}Array_{alias_name}"', 'prefix = self.bp_processor_name_prefix()\n        return f"{prefix}Array{alias_name}"', ["F6b"]),
+    ("enum-class-no-pass", "break", ["C10"], PC + "renderer/impls/py/renderer.py", '        if not self.d.fields():\n            # Python requires a class body, even for an enum without any field.\n            self.push("pass", indent=4)\n', "", ["F8"]),
 
     # =================================================================== benign twins
     ("benign-nbytes-idiom", "benign", ["C01", "C07"], PC + "_ast.py", "        if nbits % 8 == 0:\n            return int(nbits / 8)\n        return int(nbits / 8) + 1", "        return (nbits + 7) // 8", []),
